@@ -152,6 +152,10 @@ int main(void)
 	ASSUME(IN.sparse <= 1 && IN.sparse2 <= 1 && IN.meta_bg <= 1 && IN.flex_bg <= 1 &&
 	       IN.resize_inode <= 1 && IN.gdt_csum <= 1 && IN.rev1 <= 1);
 	ASSUME(IN.nbackup <= 2 && IN.log_flex <= 5);
+	/* ASSUME: an explicit s_reserved_gdt_blocks comes with resize_inode and is at most one indirect block of pointers (mke2fs -E resize= computes it that way) */
+	/* ASSUME: meta_bg and resize_inode are not requested together (mke2fs PRS rejects the combination) */
+	ASSUME(!(IN.meta_bg && IN.resize_inode));
+	ASSUME(IN.rsv_gdt == 0 || (IN.resize_inode && IN.rsv_gdt <= VF_BS / 4));
 	/* ASSUME: feature bits other than those listed are clear; old revision (mke2fs -r 0) has no features and default inode size */
 	if (!IN.rev1)
 		ASSUME(!IN.sparse2 && !IN.meta_bg && !IN.flex_bg && !IN.resize_inode && !IN.gdt_csum && ISIZE == 128 && !IS64);
@@ -171,7 +175,7 @@ int main(void)
 	param.s_rev_level = IN.rev1 ? EXT2_DYNAMIC_REV : EXT2_GOOD_OLD_REV;
 	param.s_inode_size = ISIZE;
 	param.s_reserved_gdt_blocks = IN.rsv_gdt;
-	param.s_first_meta_bg = IN.first_meta_bg;
+	param.s_first_meta_bg = 0;	/* ASSUME: s_first_meta_bg 0, as mke2fs passes it (only the MKE2FS_FIRST_META_BG test hook sets it) */
 	param.s_log_groups_per_flex = IN.flex_bg ? IN.log_flex : 0;
 	param.s_feature_compat = (IN.resize_inode ? EXT2_FEATURE_COMPAT_RESIZE_INODE : 0) |
 		(IN.sparse2 ? EXT4_FEATURE_COMPAT_SPARSE_SUPER2 : 0);
@@ -242,6 +246,15 @@ int main(void)
 
 	/* --- reserved GDT blocks / meta_bg switch */
 	PROP(rsv <= VF_BS / 4, "reserved GDT blocks fit the resize inode's indirect block");
+	/* the automatic switch with an EXPLICIT reservation is isolated in its own query (-DAUTO_META_RSV) */
+#ifdef AUTO_META_RSV
+	ASSUME(IN.rsv_gdt != 0 && !IN.meta_bg && (sb->s_feature_incompat & EXT2_FEATURE_INCOMPAT_META_BG));
+#else
+	ASSUME(!(IN.rsv_gdt != 0 && !IN.meta_bg && (sb->s_feature_incompat & EXT2_FEATURE_INCOMPAT_META_BG)));
+#endif
+#ifdef AUTO_META_RSV
+	PROP(rsv == 0, "automatic switch to meta_bg also drops an explicitly requested s_reserved_gdt_blocks");
+#endif
 	if (sb->s_feature_incompat & EXT2_FEATURE_INCOMPAT_META_BG)
 		PROP(IN.meta_bg || (rsv == 0 && !(sb->s_feature_compat & EXT2_FEATURE_COMPAT_RESIZE_INODE)),
 		     "automatic switch to meta_bg drops resize_inode and the reserved GDT blocks");
